@@ -319,28 +319,43 @@ func main() {
 			}
 		}
 
-		// 5. genFunctionWrapper: the receiver binding. Two shapes are recognised:
-		//    since 3081633: the switch stands outside the reflect.MakeFunc callback and assigns `recv`
+		// 5. genFunctionWrapper: the receiver binding. Three shapes are recognised:
+		//    since 32d4f06: the switch stands in the closure `bindRecv := func() reflect.Value {…}` (arms
+		//    `return copyDeferArg(x)` copy, `return x` x itself); `late = n.recv.node == nil`; outside the
+		//    reflect.MakeFunc callback `if rcvr != nil && !late { recv = bindRecv() }`; the callback does
+		//    `case late: d[numRet].Set(bindRecv())` and `default: d[numRet].Set(recv)`;
+		//    3081633 … 32d4f06^: the switch stands outside the callback and assigns `recv`
 		//    (`recv = copyDeferArg(x)` copy, `recv = x` x itself), the callback does `d[numRet].Set(recv)`
 		//    (copy) or `d[numRet] = recv`; before: the switch stands in the callback and writes the slot
 		//    (`dest.Set(x)` copy, `d[numRet] = x` x itself).
-		bind := map[string]string{"ptrToVal": "unknown", "valToPtr": "unknown", "same": "unknown", "call": "unknown"}
-		atCreation := false
+		bind := map[string]string{"ptrToVal": "unknown", "valToPtr": "unknown", "same": "unknown", "call": "unknown", "lateCall": "slot"}
+		atCreation, lateNilNode := false, false
 		recvHash := "unrecognised: receiver binding not found"
 		if fd := common.FindFunc(fr, "", "genFunctionWrapper"); fd == nil {
 			unrec = append(unrec, "run.go: genFunctionWrapper not found")
 		} else {
-			// the callback: the function literal passed to reflect.MakeFunc
-			var callback *ast.FuncLit
+			// the callback: the function literal passed to reflect.MakeFunc; the closure bindRecv
+			var callback, binder *ast.FuncLit
 			ast.Inspect(fd, func(n ast.Node) bool {
-				if ce, ok := n.(*ast.CallExpr); ok && text(ce.Fun) == "reflect.MakeFunc" && len(ce.Args) == 2 {
-					if fl, ok := ce.Args[1].(*ast.FuncLit); ok && callback == nil {
-						callback = fl
+				switch x := n.(type) {
+				case *ast.CallExpr:
+					if text(x.Fun) == "reflect.MakeFunc" && len(x.Args) == 2 {
+						if fl, ok := x.Args[1].(*ast.FuncLit); ok && callback == nil {
+							callback = fl
+						}
+					}
+				case *ast.AssignStmt:
+					if len(x.Lhs) == 1 && len(x.Rhs) == 1 && text(x.Lhs[0]) == "bindRecv" && x.Tok == token.DEFINE {
+						if fl, ok := x.Rhs[0].(*ast.FuncLit); ok && binder == nil {
+							binder = fl
+						}
 					}
 				}
 				return true
 			})
+			inside := func(n ast.Node, fl *ast.FuncLit) bool { return fl != nil && n.Pos() >= fl.Pos() && n.End() <= fl.End() }
 			found := false
+			shape := 0
 			ast.Inspect(fd, func(n ast.Node) bool {
 				sw, ok := n.(*ast.SwitchStmt)
 				if !ok || sw.Tag != nil || found {
@@ -356,8 +371,14 @@ func main() {
 					return true
 				}
 				found = true
-				inCallback := callback != nil && sw.Pos() >= callback.Pos() && sw.End() <= callback.End()
-				atCreation = !inCallback
+				switch {
+				case inside(sw, binder) && !inside(binder, callback):
+					shape = 3
+				case inside(sw, callback):
+					shape = 1
+				default:
+					shape = 2
+				}
 				recvHash = fmt.Sprintf("%x", sha256.Sum256([]byte(text(sw))))[:16]
 				for _, st := range sw.Body.List {
 					cc := st.(*ast.CaseClause)
@@ -377,10 +398,12 @@ func main() {
 					for _, b := range cc.Body {
 						body += text(b) + ";"
 					}
-					switch {
-					case inCallback && body == "dest.Set("+operand+");", !inCallback && body == "recv = copyDeferArg("+operand+");":
+					set := map[int]string{1: "dest.Set(" + operand + ");", 2: "recv = copyDeferArg(" + operand + ");", 3: "return copyDeferArg(" + operand + ");"}
+					slot := map[int]string{1: "d[numRet] = " + operand + ";", 2: "recv = " + operand + ";", 3: "return " + operand + ";"}
+					switch body {
+					case set[shape]:
 						bind[arm] = "set"
-					case inCallback && body == "d[numRet] = "+operand+";", !inCallback && body == "recv = "+operand+";":
+					case slot[shape]:
 						bind[arm] = "slot"
 					default:
 						unrec = append(unrec, "receiver binding, arm "+arm+": "+body)
@@ -388,28 +411,102 @@ func main() {
 				}
 				return true
 			})
+			slotStmt := func(where ast.Node, what, operand string) string {
+				switch {
+				case contains(where, "d[numRet].Set("+operand+")") && !contains(where, "d[numRet] = "+operand):
+					return "set"
+				case contains(where, "d[numRet] = "+operand) && !contains(where, "d[numRet].Set("+operand+")"):
+					return "slot"
+				}
+				unrec = append(unrec, "run.go genFunctionWrapper: the callback does not fill d[numRet] from "+operand+" as expected ("+what+")")
+				return "unknown"
+			}
 			switch {
 			case !found:
 				unrec = append(unrec, "run.go genFunctionWrapper: switch on sk / dk not found")
 			case callback == nil:
 				unrec = append(unrec, "run.go genFunctionWrapper: reflect.MakeFunc callback not found")
-			case !atCreation:
+			case shape == 1:
 				bind["call"] = "slot"
 				if !contains(fd, "src, dest := rcvr(f), d[numRet]") || !contains(fd, "sk, dk := src.Kind(), dest.Kind()") {
 					unrec = append(unrec, "run.go genFunctionWrapper: src / dest / sk / dk are not bound as expected")
 				}
-			default:
+			case shape == 2:
+				atCreation = true
 				if !contains(fd, "src := rcvr(f)") || !contains(fd, "sk, dk := src.Kind(), def.types[numRet].Kind()") {
 					unrec = append(unrec, "run.go genFunctionWrapper: src / sk / dk are not bound as expected")
 				}
-				switch {
-				case contains(callback, "d[numRet].Set(recv)") && !contains(callback, "d[numRet] = recv"):
-					bind["call"] = "set"
-				case contains(callback, "d[numRet] = recv") && !contains(callback, "d[numRet].Set(recv)"):
-					bind["call"] = "slot"
-				default:
-					unrec = append(unrec, "run.go genFunctionWrapper: the callback does not fill d[numRet] from recv as expected")
+				bind["call"] = slotStmt(callback, "recv", "recv")
+			default:
+				if !contains(binder, "src := rcvr(f)") || !contains(binder, "sk, dk := src.Kind(), def.types[numRet].Kind()") {
+					unrec = append(unrec, "run.go genFunctionWrapper: src / sk / dk are not bound as expected")
 				}
+				// which receivers are read when the wrapper is made
+				early := ""
+				ast.Inspect(fd, func(n ast.Node) bool {
+					is, ok := n.(*ast.IfStmt)
+					if ok && !inside(is, callback) && text(is.Body) == "{ recv = bindRecv() }" {
+						early = text(is.Cond)
+					}
+					return true
+				})
+				lateDef := contains(fd, "late := false") && contains(fd, "rcvr = genValueRecv(n) late = n.recv.node == nil")
+				switch {
+				case early == "rcvr != nil && !late" && lateDef:
+					atCreation, lateNilNode = true, true
+				case early == "rcvr != nil":
+					atCreation = true
+				default:
+					unrec = append(unrec, "run.go genFunctionWrapper: early binding: "+early)
+				}
+				// the callback: `switch { case rcvr == nil: … case late: … default: … }`
+				okShape := false
+				ast.Inspect(callback, func(n ast.Node) bool {
+					sw, ok := n.(*ast.SwitchStmt)
+					if !ok || sw.Tag != nil || okShape {
+						return true
+					}
+					for _, st := range sw.Body.List {
+						cc := st.(*ast.CaseClause)
+						switch {
+						case len(cc.List) == 1 && text(cc.List[0]) == "late":
+							okShape = true
+							bind["lateCall"] = slotStmt(cc, "late", "bindRecv()")
+						case len(cc.List) == 0 && contains(cc, "recv"):
+							bind["call"] = slotStmt(cc, "default", "recv")
+						}
+					}
+					return true
+				})
+				if lateNilNode && !okShape {
+					unrec = append(unrec, "run.go genFunctionWrapper: the callback has no `case late`")
+				}
+				if bind["call"] == "unknown" {
+					bind["call"] = slotStmt(callback, "recv", "recv")
+				}
+			}
+		}
+
+		// 5b. genInterfaceWrapper: the receiver its method wrappers get
+		ifaceWrapHeld := false
+		if fd := common.FindFunc(fr, "", "genInterfaceWrapper"); fd == nil {
+			unrec = append(unrec, "run.go: genInterfaceWrapper not found")
+		} else {
+			var recvs []string
+			ast.Inspect(fd, func(n ast.Node) bool {
+				as, ok := n.(*ast.AssignStmt)
+				if ok && len(as.Lhs) == 1 && text(as.Lhs[0]) == "nod.recv" {
+					recvs = append(recvs, text(as.Rhs[0]))
+				}
+				return true
+			})
+			all := strings.Join(recvs, " | ")
+			switch {
+			case all == "&receiver{val: rv, index: i2} | &receiver{val: rv, index: indexes[i]}" && contains(fd, "rv := copyDeferArg(valueInterfaceValue(v))"):
+				ifaceWrapHeld = true
+			case all == "&receiver{n, v, i2} | &receiver{n, v, indexes[i]}":
+			default:
+				unrec = append(unrec, "run.go genInterfaceWrapper: receivers of the method wrappers: "+all)
 			}
 		}
 
@@ -435,7 +532,7 @@ func main() {
 			{"itype", "getMethod"}, {"itype", "methodDepth"}, {"itype", "methodCount"}, {"itype", "methods"}, {"methodSet", "contains"}, {"itype", "implements"}, {"", "lookupFieldOrMethod"}})
 		hC := common.HashTable(fsC, fc, [][2]string{{"", "matchSelectorMethod"}, {"", "getDefault"}})
 		hR := common.HashTable(fsR, fr, [][2]string{{"", "typeAssert"}, {"", "_case"}, {"", "implementsInterface"}, {"", "canAssertTypes"},
-			{"", "getMethod"}, {"", "getMethodByName"}, {"", "lookupMethodValue"}, {"", "stripReceiverFromArgs"}, {"", "genFunctionWrapper"}})
+			{"", "getMethod"}, {"", "getMethodByName"}, {"", "lookupMethodValue"}, {"", "stripReceiverFromArgs"}, {"", "genFunctionWrapper"}, {"", "genInterfaceWrapper"}, {"", "copyDeferArg"}})
 		hK := common.HashTable(fsK, fk, [][2]string{{"typecheck", "typeAssertionExpr"}})
 		hV := common.HashTable(fsV, fv, [][2]string{{"", "genDestValue"}, {"", "genValueInterface"}, {"", "genValueRecv"}})
 		return fmt.Sprintf(`import YaegiVerif.Model.Method
@@ -453,7 +550,8 @@ def facts : Facts :=
     methodWinsCond := %s,
     ambiguousCond := %s,
     fieldDepthMinus := %d,
-    recvBind := { atCreation := %v, ptrToVal := .%s, valToPtr := .%s, same := .%s, call := .%s },
+    recvBind := { atCreation := %v, ptrToVal := .%s, valToPtr := .%s, same := .%s, call := .%s,
+                  lateNilNode := %v, lateCall := .%s, ifaceWrapHeld := %v },
     ifaceCopies := %v }
 /-- constructs the extractor no longer recognises -/
 def unrecognised : List String := %s
@@ -470,7 +568,7 @@ def sourceHashes : List (String × String) :=
    ("genFunctionWrapper receiver binding", %s)]
 end YaegiVerif.Generated.C05
 `, defaultSwap, clauseChain, methodPick, ambCheck, embedOnly, fieldPick, namesOnly, common.LeanStr(methodWins), common.LeanStr(ambiguous), depthMinus,
-			atCreation, bind["ptrToVal"], bind["valToPtr"], bind["same"], bind["call"], ifaceCopies,
+			atCreation, bind["ptrToVal"], bind["valToPtr"], bind["same"], bind["call"], lateNilNode, bind["lateCall"], ifaceWrapHeld, ifaceCopies,
 			common.LeanStrList(unrec), hT, hC, hR, hK, hV, common.LeanStr(selHash), common.LeanStr(preHash), common.LeanStr(postHash), common.LeanStr(recvHash)), nil
 	})
 }
